@@ -4,10 +4,10 @@ from props import lexcommon
 
 LEVEL_NOTE = [
     "A1 str indexing / universal newlines; A2 `re` semantics of the numeric patterns",
+    "theorems C10.content / roundtrip (full strength): the text of every token is a reading (Spec/Content.lean: characters as themselves, trigraphs/digraphs as their standard character, line splices as nothing, tabs in block comments expanded) of exactly its slice of the source, and the whole input reads as the concatenation of the item texts — nothing dropped, duplicated or reordered",
     "theorems C10.tiling / progress / bad_reported / all_consumed are about Model/Lexer.lean; tie = `lex` correspondence on token kinds, values and BAD_LEXEME diagnostics + regenerated dictionaries (C10.dict_injective re-checked on them)",
 ]
 PARTIAL = [
-    "C10.content_full (token text = normalised slice) is stated, not proved: decided per input by the independent raw scanner (oracle_lex.walk) on the implementation and by the correspondence on values",
 ]
 
 
